@@ -118,3 +118,38 @@ package kfake
 //@   prop C33
 //@   site call truncateStateLog#0 assert [cut-to-the-valid-prefix] arg0 == fsys && arg2 == int64($readEntries0_1) && $readEntries0_1 < len($ReadFile0_0)
 //@   ensures [torn-tail-removed-before-appending] (err == nil && reached($readEntries0_1)) ==> ($readEntries0_1 >= len($ReadFile0_0) || reached($truncateStateLog0))
+
+// ---- C33 (continued): what a restart trusts ----
+// snapshotMatchesSegments: the snapshot (written at a clean Close) is used instead of a full replay only when it
+// lists exactly the segment files present and every one of them has EXACTLY the recorded size - a segment that grew
+// after the snapshot (produces after a restart, then a crash) forces the replay, so no acknowledged batch is lost.
+//@ func snapshotMatchesSegments(snap persistPartSnapshot, segFiles []int64, fsys fs, pdir string) (ok bool)
+//@   prop C33
+//@   loop 0 backedge [a-trusted-segment-was-stat-ed] reached($Size0) && $Stat0_1 == nil
+//@   loop 0 backedge [a-trusted-segment-has-exactly-the-recorded-size] $Size0 == ss.Size
+//@   site call segmentFileName#0 assert [a-trusted-segment-is-the-file-at-its-position] ss.BaseOffset == segFiles[i] && arg0 == ss.BaseOffset
+//@   ensures [same-number-of-segments] ok ==> len(snap.Segments) == len(segFiles)
+
+// loadSeqWindows (v2 format): the idempotence window of a producer is restored field by field as it was saved - in
+// particular the ring cursor `at` (count mod 5 equals it only until the five-slot window has wrapped).
+//@ func (c *Cluster) loadSeqWindows(fsys fs, dir string) (err error)
+//@   prop C33
+//@   site store at#0 assert [cursor-restored-as-saved] val == w.At
+//@   site store count#0 assert [count-restored-as-saved] val == w.Count
+//@   site store epoch#0 assert [epoch-restored-as-saved] val == w.Epoch
+
+// loadPartitionFullReplay: segments that hold no batch (a crash between creating a segment file and its first
+// durable batch) are dropped BEFORE the first and last batch index entries are looked at.
+//@ func (c *Cluster) loadPartitionFullReplay(pd *partData, segFiles []int64, fsys fs, pdir string, crashAbortedMu *sync.Mutex, crashAbortedPIDs map[int64]struct{}) (err error)
+//@   prop C33
+//@   abstract call loadSegmentBatches
+//@   site call hasBatches#0 assert [empty-segments-pruned-before-the-index-is-read] reached($pruneEmptySegments0)
+
+// pruneEmptySegments keeps exactly the segments with at least one index entry, in order.
+//@ func (pd *partData) pruneEmptySegments()
+//@   prop C33
+//@   nopanic
+//@   ensures [no-empty-segment-left] forall k in 0..len(pd.segments) :: len(pd.segments[k].index) > 0
+//@   loop 0 invariant 0 <= n && n <= rangeindex + 1 && rangeindex < len(pd.segments) && -1 <= rangeindex
+//@   loop 0 invariant len(pd.segments) == old(len(pd.segments))
+//@   loop 0 invariant forall k in 0..n :: len(pd.segments[k].index) > 0
